@@ -169,7 +169,8 @@ def from_memo(term: P, memos) -> bool:
     while a and a[0] in ("attr", "sub", "obj"):
         nxt = a[1] if a[0] != "obj" else a[3]
         if a[0] == "obj":
-            return False          # a fresh local container, even if filled from memoised data
+            # a local that is mutated in place: fresh unless it was bound directly to the memoised object
+            return _direct_memo(nxt, memos)
         a = nxt.as_atom()
         term = nxt
     if a and a[0] == "call":
@@ -185,6 +186,19 @@ def from_memo(term: P, memos) -> bool:
     return False
 
 
+def _direct_memo(term: P, memos) -> bool:
+    a = term.as_atom()
+    if a and a[0] == "call":
+        cn = call_name(a)
+        if cn and cn.startswith(".") and cn[1:] in MEMO_GETTERS and a[1].as_atom()[1].key() == "self":
+            return True
+        if cn == "getattr" and a[2] and a[2][0].key() == "self" and string_value(a[2][1]) in memos:
+            return True
+    if a and a[0] == "attr" and a[1].key() == "self" and a[2] in memos:
+        return True
+    return False
+
+
 def allowed_payload_store(target: P) -> bool:
     """Metadata that symmetry_unique_molecules attaches to memoised molecules is not payload (DESIGN R14.3)."""
     k = target.key()
@@ -193,7 +207,7 @@ def allowed_payload_store(target: P) -> bool:
 
 def is_local_container(term: P) -> bool:
     a = term.as_atom()
-    return bool(a and a[0] == "obj")
+    return bool(a and a[0] == "obj" and not _direct_memo(a[3], {}))
 
 
 def is_molecule_elem(term: P, memos) -> bool:
